@@ -8,6 +8,7 @@ import (
 	"context"
 	"crypto"
 	"fmt"
+	"os"
 	"strings"
 	"testing"
 	"time"
@@ -34,7 +35,7 @@ type attack struct {
 	Mut       refcbor.Mutation `json:"mut,omitempty"`
 	Signer    string           `json:"signer,omitempty"` // stranger mfg earlier device otherkind owner
 	Swap      bool             `json:"swap,omitempty"`   // advertise the signer's key as CUPHOwnerPubKey
-	Tail      int              `json:"tail,omitempty"` // takeover: entries appended by the attacker
+	Tail      int              `json:"tail,omitempty"`   // takeover: entries appended by the attacker
 	EntriesOp string           `json:"entries_op,omitempty"`
 	To1dOp    string           `json:"to1d_op,omitempty"`
 	Transport string           `json:"transport,omitempty"`
@@ -60,12 +61,12 @@ func ownersFor(n int) []int {
 }
 
 type world struct {
-	cfg             deploy.Config
-	mfg, owner, rv  *deploy.Service
-	dev             *deploy.Device
-	probe           *deploy.RecDeviceModule
-	to1d            *cose.Sign1[protocol.To1d, []byte]
-	voucher         *fdo.Voucher
+	cfg            deploy.Config
+	mfg, owner, rv *deploy.Service
+	dev            *deploy.Device
+	probe          *deploy.RecDeviceModule
+	to1d           *cose.Sign1[protocol.To1d, []byte]
+	voucher        *fdo.Voucher
 }
 
 // extendChain extends ov from the manufacturer key through the given owners.
@@ -644,11 +645,14 @@ func evalCase(d caseDesc) ev.Result {
 		if origBody != nil && newBody != nil {
 			o, e1 := refcbor.ParseAll(origBody)
 			n, e2 := refcbor.ParseAll(newBody)
-			if e1 == nil && e2 == nil && bytes.Equal(refcbor.LenientNormal(o), refcbor.LenientNormal(n)) {
+			if e1 == nil && e2 == nil && refcbor.LenientEqual(o, n) {
 				return ev.Trivial("equivalent-encoding/" + cls)
 			}
 		}
 		return ev.Failf(bad+":"+strings.SplitN(cls, "/", 2)[0], "%s attack %+v: device outcome err=%v cred=%v moduleCalls=%d sent64=%v although: %s (mutated path %q)", tag, a, terr, cred != nil, moduleCalls, sent64, refWhy, mutPath)
+	}
+	if os.Getenv("VERIF_DEBUG") != "" {
+		fmt.Fprintf(os.Stderr, "DEBUG %s: path=%q device error: %v; reference: %s; exchanges=%v\n", cls, mutPath, terr, refWhy, link.SentTypes())
 	}
 	r := ev.OK("rejected/" + cls)
 	r.ID = fmt.Sprintf("%s|%d|%v|%v|%+v", d.Cfg.Key+d.Cfg.Enc, d.Chain, d.To1d, d.Reuse, a)
